@@ -291,17 +291,31 @@ func attrRules(c *Check, pg *PG, name, loopX, keyT, valT, critList string, eqAto
 // request's ExtendedSignedAttributes.
 func findAttrWriter(c *Check, f format) string {
 	for _, fs := range c.callTree([]string{f.method("Sign")}) {
-		found := false
+		mentions := false
 		ast.Inspect(fs.Decl.Body, func(n ast.Node) bool {
-			if r, ok := n.(*ast.RangeStmt); ok {
-				if se, ok := ast.Unparen(r.X).(*ast.SelectorExpr); ok && se.Sel.Name == "ExtendedSignedAttributes" {
-					found = true
+			if se, ok := n.(*ast.SelectorExpr); ok && se.Sel.Name == "ExtendedSignedAttributes" {
+				mentions = true
+			}
+			return !mentions
+		})
+		if !mentions {
+			continue
+		}
+		// the function whose graph has a loop over the request's attribute list
+		// (any loop form: counted loops over len(x) are range loops in the graph)
+		name := c.P.abbrev(fs.Obj.FullName())
+		pg := c.skeleton(name)
+		if pg == nil {
+			continue
+		}
+		for _, s := range pg.States {
+			for _, e := range s.Out {
+				for _, l := range e.Labels {
+					if l.Kind == "rangenext" && strings.HasSuffix(l.Key, ".ExtendedSignedAttributes") {
+						return name
+					}
 				}
 			}
-			return true
-		})
-		if found {
-			return c.P.abbrev(fs.Obj.FullName())
 		}
 	}
 	return ""
